@@ -36,6 +36,8 @@ var nets = []*chaincfg.Params{&chaincfg.MainNetParams, &chaincfg.TestNet3Params,
 
 const H = uint32(1) << 31
 
+const b58alphabet = "123456789ABCDEFGHJKLMNPQRSTUVWXYZabcdefghijkmnopqrstuvwxyz"
+
 func errClass(err error) int {
 	switch err {
 	case nil:
@@ -234,6 +236,42 @@ func roundTrip(k *hdkeychain.ExtendedKey, what map[string]interface{}, wantCorr 
 	}
 }
 
+// checkNet: a key whose network was set to nets[b] prints with that network's version bytes (the constants of bchd's
+// chaincfg/params.go, not the linked variables) and, when private, neuters to a key with the public ones.
+func checkNet(k *hdkeychain.ExtendedKey, b int, what map[string]interface{}) {
+	known := hdref.KnownHDVersions[b]
+	f := k.VerifFields()
+	want := known.Pub[:]
+	if f.IsPrivate {
+		want = known.Priv[:]
+	}
+	s := k.String()
+	rep.Count("allnets", fmt.Sprint("an", s, b), true)
+	d, _ := hdref.B58Decode(s)
+	if len(d) != 82 || !bytes.Equal(d[:4], want) {
+		m := map[string]interface{}{"string": s, "network": known.Name, "required_version_bytes": vh.Hex(want), "decoded": vh.Hex(d)}
+		for x, y := range what {
+			m[x] = y
+		}
+		rep.Violate("C05:allnets:version", "after SetNet(net) the key does not print with the version bytes chaincfg declares for that network", m)
+	}
+	if !f.IsPrivate {
+		return
+	}
+	nk, err := k.Neuter()
+	var nd []byte
+	if err == nil {
+		nd, _ = hdref.B58Decode(nk.String())
+	}
+	if err != nil || len(nd) != 82 || !bytes.Equal(nd[:4], known.Pub[:]) {
+		m := map[string]interface{}{"string": s, "network": known.Name, "required_public_version_bytes": vh.Hex(known.Pub[:]), "err": fmt.Sprint(err), "neutered_decoded": vh.Hex(nd)}
+		for x, y := range what {
+			m[x] = y
+		}
+		rep.Violate("C05:allnets:neuter", "a private key set to a registered network does not neuter to a key with that network's public version bytes", m)
+	}
+}
+
 func derive(seed []byte, net int, path []uint32) (*hdkeychain.ExtendedKey, *hdref.Node) {
 	k, err := hdkeychain.NewMaster(seed, nets[net])
 	n, st := hdref.Master(nil, seed)
@@ -294,6 +332,7 @@ func main() {
 				Path     []uint32 `json:"path_indices"`
 				Neutered bool     `json:"neutered"`
 				Steps    []string `json:"steps_after_derivation"` // "String", "SetNet:<net index>", "Neuter", "Child:<index>", "Reparse"
+				Expect   *int     `json:"expect_net"`
 			} `json:"input"`
 		}
 		b, err := os.ReadFile(cfg.Replay)
@@ -330,6 +369,9 @@ func main() {
 							k = pk
 						}
 					}
+				}
+				if rp.Input.Expect != nil {
+					checkNet(k, *rp.Input.Expect%len(nets), map[string]interface{}{"seed": rp.Input.Seed, "net_index": rp.Input.Net, "path_indices": rp.Input.Path, "steps_after_derivation": rp.Input.Steps, "expect_net": *rp.Input.Expect})
 				}
 				roundTrip(k, map[string]interface{}{"seed": rp.Input.Seed, "net_index": rp.Input.Net, "path_indices": rp.Input.Path, "neutered": rp.Input.Neutered}, false, rng.Fork("replay"))
 			}
@@ -452,7 +494,30 @@ func main() {
 			}
 		}
 	}
-	rep.Extra["targeted_leading_zero_children"] = map[string]int{"one_zero_byte": found[248], "two_or_more_zero_bytes": found[240]}
+	// children with THREE leading zero bytes (2^-24 per index): indices found once by cmd/c04/lzscan with the reference and
+	// cached (round 3); re-checked with the reference before use.  The produced key, its hardened and normal children,
+	// and the same after a round trip through the string.
+	for li, e := range []struct {
+		seed string
+		i    uint32
+	}{{"000102030405060708090a0b0c0d0e0f", 2150775374}, {"000102030405060708090a0b0c0d0e0f", 28672661},
+		{"433034206368696c6472656e2077697468207468726565206c656164696e67207a65726f206279746573", 2148998315},
+		{"433034206368696c6472656e2077697468207468726565206c656164696e67207a65726f206279746573", 2339335}} {
+		seed, _ := hex.DecodeString(e.seed)
+		for _, tail := range [][]uint32{{}, {H + 3}, {3}} {
+			path := append([]uint32{e.i}, tail...)
+			k, n := derive(seed, li%len(nets), path)
+			if k == nil {
+				continue
+			}
+			if len(tail) == 0 && n.K.BitLen() > 232 {
+				vh.Must(fmt.Errorf("cached child %s/%d does not have three leading zero bytes under the reference", e.seed, e.i))
+			}
+			found[232]++
+			roundTrip(k, map[string]interface{}{"seed": e.seed, "net": nets[li%len(nets)].Name, "net_index": li % len(nets), "path_indices": path}, li < 2, r)
+		}
+	}
+	rep.Extra["targeted_leading_zero_children"] = map[string]int{"one_zero_byte": found[248], "two_or_more_zero_bytes": found[240], "three_zero_bytes_cached_and_their_children": found[232]}
 
 	// BIP32 test vector strings must parse and round-trip
 	for _, s := range []string{
@@ -469,6 +534,89 @@ func main() {
 			rep.Violate("C05:vectors", "a BIP32 test vector string is rejected", map[string]interface{}{"string": s, "err": fmt.Sprint(err)})
 		} else {
 			roundTrip(k, map[string]interface{}{"source": "BIP32 test vector"}, false, r)
+		}
+	}
+
+	// ---------- 1b. strings whose base-58 digit string has ALIGNED ALL-ZERO GROUPS (round 3, red team): digits
+	// 5j..5j+4 (and 10-, 15-, 20-digit runs) counted from the least significant digit are all '1'.  A random key has such
+	// a group with probability 58^-5 per position, so an encoder / decoder that converts several digits per big-integer
+	// division and mishandles a zero group is never met by derivation; the payloads are CONSTRUCTED (hdref.ZeroRunPayload:
+	// key / chain-code bytes solved so that the 82-byte value has the run whatever the checksum is).  Every position from
+	// digit 10 to digit 105, all six version pairs.
+	r = rng.Fork("zerogroups")
+	{
+		built, failed := 0, 0
+		widths := []int{5, 10}
+		if cfg.Thorough() || cfg.Search {
+			widths = []int{5, 10, 15, 20, 6, 9}
+		}
+		for round := 0; round < scale(1, 4, 16); round++ {
+			for lo := 10; lo <= 100; lo += 5 {
+				for _, w := range widths {
+					hi := lo + w
+					if hi > 105 {
+						continue
+					}
+					ver := hdref.KnownHDVersions[(lo/5+w+round)%len(nets)].Priv
+					sc := r.Bytes(32)
+					sc[0] &= 0x7f
+					sc[31] |= 1
+					base := payload78(ver[:], byte(r.Intn(256)), r.Bytes(4), r.U32(), r.Bytes(32), append([]byte{0}, sc...))
+					var p []byte
+					ok := false
+					for try := 0; try < 8 && !ok; try++ {
+						p, ok = hdref.ZeroRunPayload(base, r.Bytes, lo, hi)
+					}
+					if !ok || !hdref.HasZeroRun(withChecksum(p), lo, hi) {
+						failed++
+						continue
+					}
+					built++
+					s := withChecksum(p)
+					rep.Histogram["zero_digit_group_strings"]++
+					if k, err := parseOne(s, "zero_digit_groups", round == 0 && (lo/5+w/5)%4 == 0); err == nil {
+						roundTrip(k, map[string]interface{}{"source": fmt.Sprintf("constructed payload: base-58 digits %d..%d (from the end of the string) are all '1'", lo, hi-1)}, false, r)
+					}
+				}
+			}
+		}
+		rep.Extra["zero_digit_group_strings"] = map[string]int{"constructed": built, "construction_failed": failed}
+	}
+
+	// ---------- 1c. every produced key on ALL SIX networks (round 3): SetNet(net), String, Neuter, String for each
+	// registered network in turn on the same object, chipnet included; the printed version bytes are compared with the
+	// constants of bchd's chaincfg (hdref.KnownHDVersions), not with the linked package's variables
+	r = rng.Fork("allnets")
+	for t := 0; t < scale(6, 40, 300); t++ {
+		path := make([]uint32, r.Intn(4))
+		for j := range path {
+			path[j] = randIndex(r)
+		}
+		seed := r.Bytes(vh.Pick(r, []int{16, 32, 64}))
+		a := t % len(nets)
+		k, _ := derive(seed, a, path)
+		if k == nil {
+			continue
+		}
+		var steps []string
+		for q := 0; q < len(nets); q++ {
+			b := (a + 1 + q) % len(nets) // every network (the key's own last), forwards or backwards
+			if t%2 == 1 {
+				b = (a + 2*len(nets) - 1 - q) % len(nets)
+			}
+			k.SetNet(nets[b])
+			steps = append(steps, fmt.Sprintf("SetNet:%d", b))
+			what := map[string]interface{}{"seed": vh.Hex(seed), "net": nets[a].Name, "net_index": a, "path_indices": path,
+				"steps_after_derivation": append([]string{}, steps...), "expect_net": b}
+			checkNet(k, b, what)
+			roundTrip(k, what, false, r)
+			if nk, err := k.Neuter(); err == nil {
+				what2 := map[string]interface{}{"seed": vh.Hex(seed), "net": nets[a].Name, "net_index": a, "path_indices": path,
+					"steps_after_derivation": append(append([]string{}, steps...), "Neuter"), "expect_net": b}
+				checkNet(nk, b, what2)
+				roundTrip(nk, what2, false, r)
+			}
+			steps = append(steps, "String")
 		}
 	}
 
@@ -497,13 +645,26 @@ func main() {
 		// every single-character substitution of the string (incl. characters outside the alphabet)
 		s := []byte(valid[vi])
 		for pos := 0; pos < len(s); pos++ {
-			for _, c := range []byte("123456789ABCDEFGHJKLMNPQRSTUVWXYZabcdefghijkmnopqrstuvwxyz0OIl +/\x00\t\n\x7f\x80\xb1\xff") {
+			// ALL 256 byte values (round 3: a decode table that accepts one more character -- '|', a scanner's
+			// reading of '1' -- is noticed only when exactly that byte is tried; the earlier list had 72 of them)
+			for v := 0; v < 256; v++ {
+				c := byte(v)
 				if c == s[pos] {
 					continue
 				}
 				m := append([]byte{}, s...)
 				m[pos] = c
-				parseOne(string(m), "charsub", vi < 2 && r.Intn(300) == 0)
+				parseOne(string(m), "charsub", vi < 2 && r.Intn(1000) == 0)
+			}
+		}
+		// every byte value inserted between two characters / appended / prepended (a foreign byte that the decoder
+		// SKIPS instead of rejecting shows here, one that it reads as a digit shows above)
+		for pos := 0; pos <= len(s); pos += 1 + pos%3 {
+			for v := 0; v < 256; v++ {
+				if strings.IndexByte(b58alphabet, byte(v)) >= 0 && !cfg.Thorough() && !cfg.Search {
+					continue
+				}
+				parseOne(string(s[:pos])+string([]byte{byte(v)})+string(s[pos:]), "charinsert", vi < 1 && r.Intn(800) == 0)
 			}
 		}
 		// corruptions that keep the checksum valid: each payload byte changed, checksum recomputed
@@ -511,6 +672,19 @@ func main() {
 			m := append([]byte{}, d[:78]...)
 			m[pos] ^= byte(1 + r.Intn(255))
 			parseOne(withChecksum(m), "payload_byte_recomputed_checksum", vi < 2 && pos%3 == 0)
+		}
+		// ... and every one of the 255 other values at every payload position, checksum recomputed (round 3): these
+		// strings pass the checksum layer, so each one reaches the key-material layer and, when accepted, must print
+		// as itself (exercises Encode/Decode on 78*255 neighbouring values of one key, zero bytes included)
+		for pos := 0; pos < 78; pos++ {
+			for v := 0; v < 256; v++ {
+				if byte(v) == d[pos] {
+					continue
+				}
+				m := append([]byte{}, d[:78]...)
+				m[pos] = byte(v)
+				parseOne(withChecksum(m), "payload_bytesub_recomputed_checksum", vi < 2 && r.Intn(1500) == 0)
+			}
 		}
 		// a valid string wrapped in / interrupted by characters outside the alphabet (white space, NUL, look-alikes,
 		// non-ASCII bytes): never accepted, in particular not "after trimming" (review round 2)
